@@ -4140,6 +4140,9 @@ where
                 }
 
                 candidate.tri.validation_policy = self.tri.validation_policy;
+                // The rebuilt triangulation replaces `self`: keep its global topology metadata
+                // (e.g. the toroidal domain), which the fresh candidate initialised to Euclidean.
+                candidate.tri.global_topology = self.tri.global_topology;
                 candidate.insertion_state.delaunay_repair_policy =
                     self.insertion_state.delaunay_repair_policy;
                 candidate.insertion_state.delaunay_check_policy =
